@@ -70,7 +70,13 @@ func propC03(c *Ctx) {
 				Input: line, Expected: clip(er.String()), Actual: clip(rr.String())})
 		}
 		if er.kind != "ok" {
-			continue // beyond the 16-bit limits: outside the domain (the model must agree on that: correspondence)
+			// beyond the 16-bit limits: outside the domain (the model must agree on that: correspondence).  Whether a
+			// refusal is of that kind is decided by the independent reference encoder: a message it encodes is in the domain.
+			if ref := refEncodeRes(sx, 0); ref.kind == "ok" {
+				c.violate(Violation{Suite: s.Name, Kind: "property", Index: i, Class: "encode-refuses-domain-message",
+					Desc: "Encode fails on a message of the encodable domain (the independent RFC 7296 encoder encodes it within all field widths)", Input: line, Expected: clip(ref.String()), Actual: er.String()})
+			}
+			continue
 		}
 		bs := unhx(er.val)
 		dr := runDec(decoders()[0], bs)
@@ -162,7 +168,7 @@ func chainOf(ps *Sx) ([]chainElem, bool) {
 func propC13(c *Ctx) {
 	g := NewGen(c.seed)
 	s := c.suite("unsupported-payloads", "oracle",
-		"messages of the encodable domain with payloads of unsupported type inserted by an independent chain encoder: exhaustively every type code 1..32, 49..255 x positions {front, middle, end} x both critical-flag values x body lengths {0,1,4,1024} as single insertions, plus random multi-insertions and random critical flags on supported payloads; non-trivial = >= 1 supported payload; distinct by datagram")
+		"messages of the encodable domain with payloads of unsupported type inserted by an independent chain encoder, through IKEMessage.Decode and (every second case) DecodeDecrypt without keys / with keys: exhaustively every type code 1..32, 49..255 x positions {front, middle, end} x both critical-flag values x body lengths {0,1,4,1024} as single insertions, plus random multi-insertions and random critical flags on supported payloads; non-trivial = >= 1 supported payload; distinct by datagram")
 	s2 := c.suite("unsupported-payloads-inside-sk", "oracle",
 		"every third case of the suite above once more with the chain as the inner chain of a protected message sealed by the independent reference (9 suites in rotation, both roles, both header modes): DecodeDecrypt must return the message without the insertions, or an error when an inserted payload is critical; includes inner chains that hold unsupported payloads only; non-trivial = every case; distinct by datagram")
 	var corr []corrCase
@@ -213,6 +219,22 @@ func propC13(c *Ctx) {
 			c.violate(Violation{Suite: s.Name, Kind: "property", Index: idx, Class: "unsupported-payload:" + dr.kind,
 				Desc:  fmt.Sprintf("message with %d inserted unsupported payload(s) (critical=%v) not handled as prescribed", len(ins), anyCrit),
 				Input: line, Expected: clip(want), Actual: clip(dr.String())})
+		}
+		// the other plain-message entry point: DecodeDecrypt without keys (and with keys: the datagram does not present SK)
+		if idx%2 == 0 && len(els) > 0 && els[0].typ != 46 {
+			var ur callRes
+			who := "without keys"
+			if idx%4 == 0 {
+				ur = unprotect(nil, bs, message.Role(idx%8 == 0), idx%3 == 0)
+			} else {
+				who = "with SA keys (the datagram does not present an Encrypted payload)"
+				ur = unprotect(newSA(g.saKeys(allSuites()[idx%9])), bs, message.Role(idx%8 == 2), idx%3 == 0)
+			}
+			if ur.String() != want {
+				c.violate(Violation{Suite: s.Name, Kind: "property", Index: idx, Class: "unsupported-payload-decodedecrypt:" + ur.kind,
+					Desc:  fmt.Sprintf("DecodeDecrypt %s on a plain message with %d inserted unsupported payload(s) (critical=%v) and %d supported one(s): not handled as prescribed", who, len(ins), anyCrit, len(sx.List[2].List)),
+					Input: "dec msg " + hx(bs), Expected: clip(want), Actual: clip(ur.String())})
+			}
 		}
 		// the same chain as the INNER chain of a protected message, sealed by the independent reference (its own
 		// AES-CBC and HMAC): unprotecting must give the message without the insertions / an error for a critical one
@@ -504,6 +526,15 @@ func (c *Ctx) c12Canonical() {
 			}
 			return renderMsg(m).String(), nil
 		})
+		if d.kind == "err" {
+			// the strict parser also reads canonical encodings of values OUTSIDE the encodable domain (empty key exchange /
+			// identity / authentication data, an SA without proposals, a proposal without transforms, CP without
+			// attributes, an empty TLV value, Delete with inconsistent SPI size): the library refuses those on purpose
+			if rs, err := ParseSx(res[i][len("some "):]); err == nil && !msgInDomain(rs) {
+				s.Dist["accepted-by-spec-parser-but-outside-the-domain"]++
+				continue
+			}
+		}
 		if d.String() != want {
 			c.violate(Violation{Suite: s.Name, Kind: "property", Index: i, Class: "canonical-datagram-decode:" + d.kind,
 				Desc: "a canonical datagram (accepted by the strict RFC 7296 parser of the specification) is not decoded to the fields it carries", Input: "dec msg " + hx(cs.in), Expected: clip(want), Actual: clip(d.String())})
@@ -514,6 +545,59 @@ func (c *Ctx) c12Canonical() {
 				Desc: "re-encoding of a canonical datagram (accepted by the strict RFC 7296 parser of the specification) is not byte-identical", Input: "dec msg " + hx(cs.in), Expected: hx(cs.in), Actual: clip(e.String())})
 		}
 	}
+}
+
+// msgInDomain: the "encodable domain" of the properties, on a rendered message (output form)
+func msgInDomain(m *Sx) bool {
+	if !m.IsL || len(m.List) < 3 {
+		return false
+	}
+	for _, p := range m.List[2].List {
+		switch p.Head() {
+		case "KE", "IDi", "IDr", "CERT", "CERTREQ", "AUTH":
+			if len(p.B(2)) == 0 {
+				return false
+			}
+		case "SA":
+			for _, pr := range p.List[1].List {
+				n := 0
+				for c := 4; c <= 8; c++ {
+					for _, t := range pr.List[c].List {
+						n++
+						if t.U(3) == 1 && t.U(4) == 0 && len(t.B(7)) == 0 { // TLV without a value
+							return false
+						}
+					}
+				}
+				if n == 0 {
+					return false
+				}
+			}
+		case "TSi", "TSr":
+			if n := len(p.List[1].List); n < 1 || n > 255 {
+				return false
+			}
+		case "CP":
+			if len(p.List[2].List) == 0 {
+				return false
+			}
+		case "D":
+			sz, cnt, n := p.U(2), p.U(3), uint64(len(p.List[4].List))
+			if !(sz == 0 && cnt == 0 && n == 0) && !(sz == 4 && cnt == n) {
+				return false
+			}
+		case "EAP":
+			if len(p.List) >= 4 && p.List[3].IsL {
+				switch td := p.List[3]; td.Head() {
+				case "ID", "NOTIF", "NAK":
+					if len(td.B(1)) == 0 {
+						return false
+					}
+				}
+			}
+		}
+	}
+	return true
 }
 
 func deleteSmallSPI(m *message.IKEMessage) bool {
